@@ -5,6 +5,7 @@ import (
 	"math"
 	"time"
 
+	"github.com/simpleiot/simpleiot/client"
 	"github.com/simpleiot/simpleiot/data"
 
 	"verifharness/internal/vlib"
@@ -15,10 +16,10 @@ func init() { Registry["C05"] = runC05 }
 func runC05(tier string, _ []string) int {
 	c := vlib.NewCtx("C05", tier, "exploration")
 	vlib.SetPortBlock(5)
-	c.SetRule("per case a fresh instance with a random graph (C03/C06 generators), then PRNG requests of the classes that must be refused (tombstone on the root; self edge; new edge closing a cycle through live or deleted edges; first edge without nodeType; NaN at any position of a node or edge batch, quiet and signalling, both signs) mixed with legal look-alikes that must be accepted (mirror to a non-ancestor, tombstone 0 on the root, +-Inf) and open-status requests (undecodable payloads, root tombstone 2). Monitor: reply of each request; full dump (placements, points, edge points, hashes) before/after every request answered with an error must be identical; an up.> tap drained at the reply barrier must be empty; a follow-up acknowledged write to an unrelated node must be answered. distinct = (request class, graph size bucket, outcome)")
+	c.SetRule("per case a fresh instance with a random graph (C03/C06 generators), then PRNG requests of the classes that must be refused (tombstone on the root; self edge; new edge closing a cycle through live or deleted edges, sent raw and through client.MoveNode / client.MirrorNode; first edge without nodeType; NaN at any position of a node or edge batch, quiet and signalling, both signs) mixed with legal look-alikes that must be accepted (mirror to a non-ancestor, tombstone 0 on the root, +-Inf) and open-status requests (undecodable payloads, root tombstone 2). Monitor: reply of each request; full dump (placements, points, edge points, hashes) before/after every request answered with an error must be identical; an up.> tap drained at the reply barrier must be empty; a follow-up acknowledged write to an unrelated node must be answered. distinct = (request class, graph size bucket, outcome)")
 	c.Assume("a stack overflow / process death caused by a cycle is reported by the check wrapper as a violation (process-death)")
-	nGraphs := c.N(15, 300)
-	perGraph := c.N(28, 42)
+	nGraphs := c.N(40, 400)
+	perGraph := c.N(32, 48)
 	wd := c.NewWatchdog()
 	vlib.Parallel(nGraphs, 6, func(i int) {
 		r := vlib.NewR(c.Seed, "c05", i)
@@ -58,7 +59,7 @@ func runC05(tier string, _ []string) int {
 		nan := func() float64 {
 			return []float64{math.NaN(), -math.NaN(), math.Float64frombits(0x7ff0000000000001), math.Float64frombits(0xfff8000000000123), math.Float64frombits(0x7ff4000000000000)}[r.Intn(5)]
 		}
-		classes := []string{"root-tombstone", "self-edge", "cycle", "cycle-deleted", "no-nodetype", "nan-node", "nan-edge", "nan-new-edge",
+		classes := []string{"root-tombstone", "self-edge", "cycle", "cycle-deleted", "no-nodetype", "nan-node", "nan-edge", "nan-new-edge", "api-move-cycle", "api-mirror-cycle",
 			"legal-mirror", "legal-root-tombstone0", "legal-inf", "open-garbage-node", "open-garbage-edge", "open-root-tombstone2"}
 		for k := 0; k < perGraph; k++ {
 			class := classes[(k+i)%len(classes)]
@@ -113,6 +114,67 @@ func runC05(tier string, _ []string) int {
 					continue
 				}
 				pts = data.Points{{Type: data.PointTypeTombstone, Time: d.now(), Value: 0}, {Type: data.PointTypeNodeType, Text: d.g.Types[node]}}
+			case "api-move-cycle", "api-mirror-cycle":
+				// the same refusals through the public helpers (client.MoveNode / client.MirrorNode), which read the node first
+				found := false
+				var anc, desc, ancParent string
+				for try := 0; try < 40 && !found; try++ {
+					desc = d.pickNode()
+					ancs := keysOf(d.g.Ancestors(desc, true))
+					if len(ancs) == 0 {
+						continue
+					}
+					anc = ancs[r.Intn(len(ancs))]
+					if anc == "root" || anc == in.RootID || d.g.HasEdge(desc, anc) {
+						continue
+					}
+					ps := d.g.Parents(anc, false)
+					if len(ps) == 0 {
+						continue
+					}
+					ancParent, found = ps[0], true
+				}
+				if !found {
+					continue
+				}
+				before, err := vlib.Walk(nc)
+				if err != nil {
+					c.Inconclusive(fmt.Sprint("walk: ", err))
+					return
+				}
+				tap.Drain()
+				var apiErr error
+				done := wd.Watch("refused-write:request-not-answered:"+class, map[string]any{"case": i, "class": class, "ops": d.Log}, 90*time.Second, true)
+				if class == "api-move-cycle" {
+					apiErr = client.MoveNode(nc, anc, ancParent, desc, "user-x")
+				} else {
+					apiErr = client.MirrorNode(nc, anc, desc, "user-x")
+				}
+				done()
+				c.Eval(1)
+				msgs := tap.Drain()
+				wit := map[string]any{"case": i, "seed": c.Seed, "class": class, "node": anc, "new_parent": desc, "old_parent": ancParent, "api_error": fmt.Sprint(apiErr), "ops": d.Log, "edges": d.g.EdgeKeys()}
+				if apiErr == nil {
+					c.Violate("refused-write:accepted:"+class, "moving / mirroring a node below its own descendant succeeded", wit)
+					return
+				}
+				after, err := vlib.Walk(nc)
+				if err != nil {
+					c.Violate("refused-write:instance-unreadable-after:"+class, err.Error(), wit)
+					return
+				}
+				if b, a := vlib.DumpString(before), vlib.DumpString(after); b != a {
+					wit["before"], wit["after"] = b, a
+					c.Violate("refused-write:left-a-trace-in-store:"+class, "a refused move / mirror changed stored content or hashes", wit)
+					return
+				}
+				if len(msgs) > 0 {
+					c.Violate("refused-write:rebroadcast:"+class, "a refused move / mirror was announced on the rebroadcast subjects", wit)
+					return
+				}
+				c.Count("refused_checked", 1)
+				c.Distinct(class + " refused")
+				continue
 			case "no-nodetype":
 				node, parent, edgeWrite, mustRefuse = d.newID(), d.pickNode(), true, true
 				pts = data.Points{{Type: data.PointTypeTombstone, Time: d.now(), Value: 0}}
